@@ -22,21 +22,21 @@ import (
 )
 
 type frameSigma struct {
-	Ph byte // publish phase: a ahead of snapshot, s snapshot taken / dispatching, p past the loop
-	W  int  // bus wg Adds pending (publisher)
-	Dn int  // bus wg Dones executed in the goroutine
-	L  byte // sequential lock held n/y
-	H  int  // panic handler calls in the current dispatch frame
-	S  int  // OnHandlerStart calls in the current dispatch frame
-	E  int  // OnHandlerComplete calls in the current dispatch frame
-	I  int  // handler invoked in current dispatch frame
-	Ps int  // OnPublishStart
-	Pc int  // OnPublishComplete
+	Ph byte   // publish phase: a ahead of snapshot, s snapshot taken / dispatching, p past the loop
+	W  int    // bus wg Adds pending (publisher)
+	Dn int    // bus wg Dones executed in the goroutine
+	L  byte   // sequential lock held n/y
+	H  int    // panic handler calls in the current dispatch frame
+	S  int    // OnHandlerStart calls in the current dispatch frame
+	E  int    // OnHandlerComplete calls in the current dispatch frame
+	I  int    // handler invoked in current dispatch frame
+	Ps int    // OnPublishStart
+	Pc int    // OnPublishComplete
 	B  [4]int // hook calls: before, beforeCtx, after, afterCtx
-	Pe int  // persist function calls
-	X  byte // in dispatch frame n/y
-	K  byte // a panic was recovered in the current dispatch frame n/y
-	Es byte // the error reported to OnHandlerComplete was assigned on this (recovered) path n/y
+	Pe int    // persist function calls
+	X  byte   // in dispatch frame n/y
+	K  byte   // a panic was recovered in the current dispatch frame n/y
+	Es byte   // the error reported to OnHandlerComplete was assigned on this (recovered) path n/y
 }
 
 func cap2(n int) int {
@@ -647,6 +647,7 @@ func framesRuleOf(construct string) string {
 // runFrames runs the automaton and files obligations for the wanted rules.
 func runFrames(c *Ctx, p *Prog, R *BusRoles, want map[string]string) {
 	e := NewEngine(p)
+	e.StepOver = true
 	rn := R.RegName()
 	for _, f := range []string{R.RegOnce, R.RegAsync, R.RegSeq, R.RegFilter, R.RegHandler, R.RegHandlerType} {
 		e.Immutable[rn+"."+f] = true
